@@ -784,6 +784,20 @@ def run_V(pid, tier, seed):
         if lp is None or lm is None:
             raise common.HarnessError("driver gave no answer for " + mid)
         src = [V.def_source(d, mod["defs"], False) for d in mod["defs"]]
+        if pid == "C17":
+            # flavour equality: the sync and the async build of the same function behave the same
+            def canon(r):
+                return ("OK", V.render(r[1])) if r[0] == "OK" else tuple(r[:2])
+            outs = {}
+            for (r, info) in reals:
+                outs.setdefault(info["is_async"], set()).add(canon(r))
+            if len(outs.get(True, set()) | outs.get(False, set())) == 1:
+                stats["both_flavours_equal"] += 1
+            else:
+                failures.append(Failure("counterexample", "flavours-differ", mod,
+                                        dict(source=src, args=mod["args"], sync=sorted(map(repr, outs.get(False, []))),
+                                             asyn=sorted(map(repr, outs.get(True, [])))), slice_="V"))
+            continue
         if oracle[0] != "OK":
             stats["oracle_raises"] += 1
             continue   # plain Python raises: nothing is claimed
@@ -1003,3 +1017,284 @@ ASSUME_H = [
 reg("C11", ["VM.C11_setup_at_most_once", "VM.applyOp_res_keep", "VM.not_entered_of_res"], run_H, ASSUME_H)
 reg("C15", ["VM.runHistory_res_nonsetup", "VM.applyOp_res_nonsetup", "VM.C01_core"], run_H, ASSUME_H)
 reg("C18", ["VM.C18_restart_same", "VM.denote_seeded"], run_H, ASSUME_H)
+
+
+# ---------------------------------------------------------------------------------------------
+# compose (C19)
+# ---------------------------------------------------------------------------------------------
+import slice_c as C  # noqa: E402
+
+
+def run_C(pid, tier, seed):
+    n_dags = 200 if tier == "quick" else 3000
+    per = 6 if tier == "quick" else 12
+    failures, samples = [], []
+    stats = dict(dags=0, compositions=0, valueerrors=0, with_flag_input=0, ellipsis=0, alias_tag=0, ambiguous=0,
+                 original_probes=0, exhaustive_pairs=0)
+    distinct = set()
+    base = random.Random("%s/c/%d" % (pid, seed))
+    blocks, kept = [], {}
+    for k in range(n_dags):
+        rng = random.Random(base.randrange(1 << 62))
+        sc = C.gen(rng, max_n=7 if tier == "quick" else 6)
+        d = C.build(sc)
+        n = sc["n"]
+        stats["dags"] += 1
+        probe_before = C.run_sync(d(1, 2))
+        qlines, cases = [], []
+        small_exhaustive = tier == "thorough" and n <= 3
+        pairs = []
+        if small_exhaustive:
+            import itertools
+            allidx = list(range(n)) + [n, n + 1]
+            for r_in in range(0, 3):
+                for ins in itertools.combinations(allidx, r_in):
+                    for r_out in range(1, 3):
+                        for outs in itertools.combinations(range(n), r_out):
+                            pairs.append((list(ins), list(outs)))
+            stats["exhaustive_pairs"] += len(pairs)
+        else:
+            for _ in range(per):
+                outs = rng.sample(range(n), rng.randint(1, min(2, n)))
+                r = rng.random()
+                if r < 0.15:
+                    ins = "ellipsis"
+                else:
+                    ins = rng.sample(list(range(n)) + [n, n + 1], rng.randint(0, min(3, n + 2)))
+                pairs.append((ins, outs))
+        for ins, outs in pairs:
+            if ins != "ellipsis" and set(ins) & set(outs):
+                stats["out_of_scope_overlap"] = stats.get("out_of_scope_overlap", 0) + 1
+                continue   # an output that is also an input: refused/ambiguous by an existing test, not claimed
+            ell = ins == "ellipsis"
+            if ell:
+                ins = [n, n + 1]
+                stats["ellipsis"] += 1
+            vals = [rng.choice([1, 0, None, (3, 4), "v", True]) for _ in ins]
+            # aliases
+            ambiguous = False
+
+            def alias(i, allow_tag=True):
+                nonlocal ambiguous
+                if i >= n:
+                    return "describe>!>" + ("x" if i == n else "y")
+                s = sc["specs"][i]
+                if allow_tag and s["tag"] and rng.random() < 0.4:
+                    stats["alias_tag"] += 1
+                    if s["tag"] == "shared":
+                        ambiguous = True
+                    return s["tag"]
+                return rng.choice(["n%d" % i, d.exec_nodes["n%d" % i]])
+            ins_alias = ... if ell else [alias(i) for i in ins]
+            outs_alias = [alias(o) for o in outs]
+            single = len(outs) == 1 and rng.random() < 0.5
+            real = C.real_compose(sc, d, outs_alias, ins_alias, vals, single)
+            stats["compositions"] += 1
+            if any(sc["specs"][o]["flag"] in ins for o in range(n) if sc["specs"][o]["flag"] is not None):
+                stats["with_flag_input"] += 1
+            want = ("VALUEERROR", "ambiguous-alias") if ambiguous else C.oracle(sc, outs, ins, vals)
+            case = dict(ins=ins, outs=outs, vals=vals, ellipsis=ell, single=single, ambiguous=ambiguous)
+            distinct.add(json.dumps([sc, ins, outs], sort_keys=True, default=repr))
+            if want[0] == "VALUEERROR":
+                stats["valueerrors"] += 1
+                stats["ambiguous"] += int(ambiguous)
+                if real[0] != "VALUEERROR":
+                    failures.append(Failure("counterexample", "compose-accepted-invalid-request(%s)" % want[1], sc,
+                                            dict(case=case, real=real), slice_="C"))
+            else:
+                if real[0] != "OK":
+                    sig = "compose-" + (real[0].lower()) + (":" + real[1] if len(real) > 2 else "")
+                    failures.append(Failure("counterexample", sig, sc, dict(case=case, real=real, want=[C.render(v) for v in want[1]]), slice_="C"))
+                elif [C.render(v) for v in real[1]] != [C.render(v) for v in want[1]]:
+                    failures.append(Failure("counterexample", "composed-dag-wrong-value", sc,
+                                            dict(case=case, real=[C.render(v) for v in real[1]], want=[C.render(v) for v in want[1]]), slice_="C"))
+            if not ambiguous:
+                qlines.append("Q %d %s %d %s %s" % (len(outs), " ".join(map(str, outs)), len(ins), " ".join(map(str, ins)),
+                                                    " ".join(C.enc(v) for v in vals)))
+                cases.append((case, real, want))
+        probe_after = C.run_sync(d(1, 2))
+        stats["original_probes"] += 1
+        if probe_before != probe_after:
+            failures.append(Failure("counterexample", "compose-changed-the-original", sc,
+                                    dict(before=probe_before, after=probe_after), slice_="C"))
+        tid = "t%d" % k
+        blocks.append("\n".join(C.header(tid, sc) + qlines + ["E"]) + "\n")
+        kept[tid] = (sc, cases)
+        if len(samples) < 2:
+            samples.append(dict(scenario=sc, protocol=blocks[-1].splitlines()))
+    out = common.run_driver("Compose", "".join(blocks))
+    ans = {}
+    for l in out:
+        w = l.split()
+        ans.setdefault(w[0], {})[int(w[1])] = w[2:]
+    for tid, (sc, cases) in kept.items():
+        for q, (case, real, want) in enumerate(cases):
+            a = ans.get(tid, {}).get(q)
+            if a is None:
+                raise common.HarnessError("no model answer for %s/%d" % (tid, q))
+            if a[0] in ("MISSING", "INPUTDEP"):
+                model = ("VALUEERROR",)
+            elif a[0] == "OK":
+                model = ("OK", a[1:])
+            else:
+                model = (a[0],)
+            realc = ("OK", [C.render(v) for v in real[1]]) if real[0] == "OK" else (real[0],)
+            if model != realc:
+                failures.append(Failure("correspondence", "C-compose-model-vs-code", sc,
+                                        dict(case=case, model=model, real=real, oracle=want[0]), slice_="C"))
+    coverage = dict(evaluations=stats["compositions"], distinct_nontrivial=len(distinct),
+                    rule="random DAGs (<=7 nodes, flags on node results, constants, defaulted and required DAG parameters, tags "
+                         "incl. a tag shared by two nodes) x random (inputs, outputs) subset pairs given through id / node "
+                         "reference / tag / Ellipsis x random input values; thorough: every subset pair on DAGs with <=3 nodes; "
+                         "the original DAG is probed before and after; distinct = distinct (DAG, inputs, outputs)",
+                    samples=samples, traces_validated_against_impl=sum(len(c) for _s, c in kept.values()), **stats)
+    return coverage, failures, None
+
+
+ASSUME_C = [
+    "node functions deterministic; alias resolution modelled in the harness",
+    "the composed DAG's fresh parameter ids are glue (the model keeps the node's index and makes it a precomputed holder)",
+]
+reg("C19", ["VM.C18_restart_same", "VM.C01_core"], run_C, ASSUME_C)
+
+
+# ---------------------------------------------------------------------------------------------
+# threads (C16)
+# ---------------------------------------------------------------------------------------------
+import slice_t as T  # noqa: E402
+
+
+def run_T(pid, tier, seed):
+    n = 400 if tier == "quick" else 4000
+    failures, samples = [], []
+    stats = dict(interleavings=0, threads_hist={}, with_overlapping_build=0, exhaustive_programs=0,
+                 exhaustive_interleavings=0, concurrent_call_batches=0, hung=0)
+    distinct = set()
+    blocks, kept = [], {}
+
+    def one(xid, sc):
+        obs, errors, hung = T.run(sc)
+        stats["interleavings"] += 1
+        stats["threads_hist"][len(sc["progs"])] = stats["threads_hist"].get(len(sc["progs"]), 0) + 1
+        distinct.add(json.dumps(sc, sort_keys=True))
+        if hung:
+            stats["hung"] += 1
+            failures.append(Failure("counterexample", "threads-hung", sc, dict(obs=obs, errors=errors), slice_="T"))
+            return
+        if errors:
+            raise common.HarnessError("thread harness error: %r" % (errors,))
+        # monitor: every thread observes a prefix of what it observes alone
+        for t, p in enumerate(sc["progs"]):
+            want = T.solo(p)
+            got = obs[t]
+            if got != want[:len(got)]:
+                j = next(i for i in range(len(got)) if got[i] != want[i])
+                kind = "dag-call-returned-reference" if got[j] == "REF" and want[j].startswith("DAG") else \
+                       "function-call-recorded-instead-of-executed" if got[j] == "REF" and want[j].startswith("FN") else \
+                       "built-dag-contains-foreign-nodes" if got[j].startswith("BUILT") else "thread-observation-differs"
+                failures.append(Failure("counterexample", kind, sc, dict(thread=t, observed=got, alone=want), slice_="T"))
+                break
+        blocks.append(T.block(xid, sc, "o"))
+        kept[xid] = (sc, obs)
+        if len(samples) < 2:
+            samples.append(dict(scenario=sc, observed=obs, protocol=blocks[-1].splitlines()))
+
+    base = random.Random("%s/t/%d" % (pid, seed))
+    for k in range(n):
+        sc = T.gen(random.Random(base.randrange(1 << 62)))
+        one("x%d" % k, sc)
+    # exhaustive: every interleaving of small programs
+    small = [[["B", "R1", "E"], ["D0"]], [["B", "R1", "E"], ["F2"]], [["B", "R0", "E"], ["B", "R1", "E"]],
+             [["B", "R1", "R2", "E"], ["D1", "F0"]], [["D0", "B", "E"], ["F1", "D1"]]]
+    if tier == "thorough":
+        small += [[["B", "R1", "E"], ["D0"], ["F3"]], [["B", "R1", "E", "D0"], ["D1", "B", "R2", "E"]],
+                  [["B", "R0", "E"], ["F1"], ["B", "R2", "E"]]]
+    for pi, progs in enumerate(small):
+        stats["exhaustive_programs"] += 1
+        for si, sched in enumerate(T.all_schedules(progs)):
+            stats["exhaustive_interleavings"] += 1
+            one("e%d_%d" % (pi, si), dict(progs=progs, sched=list(sched)))
+    # concurrent calls of one shared DAG with distinct arguments
+    for b in range(10 if tier == "quick" else 100):
+        k = 2 + b % 5
+        stats["concurrent_call_batches"] += 1
+        for arg, res in T.concurrent_calls(k, b):
+            if res != ("second", ("first", arg), arg):
+                failures.append(Failure("counterexample", "concurrent-call-got-foreign-result", dict(k=k, batch=b),
+                                        dict(arg=arg, result=res), slice_="T"))
+                break
+    out = common.run_driver("Threads", "".join(blocks))
+    model = {}
+    for l in out:
+        w = l.split()
+        model.setdefault(w[0], {})[int(w[1])] = w[2:]
+    for xid, (sc, obs) in kept.items():
+        for t in obs:
+            if obs[t] != model.get(xid, {}).get(t, []):
+                failures.append(Failure("correspondence", "T-observations-vs-owner-model", sc,
+                                        dict(thread=t, real=obs[t], model=model.get(xid, {}).get(t)), slice_="T"))
+                break
+    coverage = dict(evaluations=stats["interleavings"], distinct_nontrivial=len(distinct),
+                    rule="2-3 real threads x <=5 API-level actions each (build with recorded calls, decorated function "
+                         "outside a DAG, call of a shared DAG) forced through a scripted interleaving (random; plus EVERY "
+                         "interleaving of a list of small thread programs); batches of 2-6 threads calling one DAG at the "
+                         "same time (a barrier inside a node guarantees the runs overlap); distinct = distinct (programs, schedule)",
+                    samples=samples, traces_validated_against_impl=len(kept), **stats)
+    return coverage, failures, None
+
+
+ASSUME_T = [
+    "atomicity at the granularity of tawazi API segments between user-code yield points; bytecode-level preemption inside tawazi is not modelled",
+    "setup nodes have run before a DAG is shared between threads (excluded by the statement)",
+    "OS thread identity / scheduling is the runtime's; the harness serialises the scripted actions with a condition variable",
+]
+reg("C16", ["TH.C16_owner_safe", "TH.C16_pinned_witness", "TH.C16_owner_same_schedule"], run_T, ASSUME_T)
+
+
+# ---------------------------------------------------------------------------------------------
+# C17: flavour equality (via the V engine), concurrent awaits, loop liveness
+# ---------------------------------------------------------------------------------------------
+import slice_a as A  # noqa: E402
+
+
+def run_A(pid, tier, seed):
+    coverage, failures, _ = run_V(pid, tier, seed)       # (a) both flavours, same programs, same oracle
+    n_g = 150 if tier == "quick" else 2500
+    stats = dict(gathers=0, awaits=0, liveness_runs=0)
+    base = random.Random("C17/g/%d" % seed)
+    for k in range(n_g):
+        rng = random.Random(base.randrange(1 << 62))
+        sc = A.gen_gather(rng)
+        out = A.run_gather(sc, rng.randrange(1 << 30))
+        stats["gathers"] += 1
+        stats["awaits"] += sc["k"]
+        if out[0] != "ok":
+            sig = "gather-hang" if out[0] == "hang" else "gather-raised:" + type(out[1]).__name__
+            failures.append(Failure("counterexample", sig, sc, dict(outcome=repr(out)[:300]), slice_="A"))
+            continue
+        for j, r in enumerate(out[1]):
+            want = A.expected(sc, 1000 + j)
+            if tuple(r) != want:
+                failures.append(Failure("counterexample", "concurrent-await-got-wrong-result", sc,
+                                        dict(await_index=j, got=r, want=want), slice_="A"))
+                break
+    # (c) liveness: without thread-resource nodes the loop is never blocked (C17c_partial) ...
+    for maxc in (1, 2, 3):
+        ok, detail = A.liveness([], maxc)
+        stats["liveness_runs"] += 1
+        if not ok:
+            failures.append(Failure("counterexample", "loop-blocked/async-only", dict(kinds=[], maxc=maxc), detail, slice_="A"))
+    # ... with a thread node in flight next to it, it is (known finding, model witness C17c_mixed_witness)
+    ok, detail = A.liveness(["t"], 3)
+    stats["liveness_runs"] += 1
+    if not ok:
+        failures.append(Failure("counterexample", "loop-blocked/mixed-kinds", dict(kinds=["t"], maxc=3), detail, slice_="A"))
+    coverage.update(stats)
+    coverage["evaluations"] += stats["gathers"] + stats["liveness_runs"]
+    coverage["rule"] += "; plus asyncio.gather of 2-8 concurrent awaits of one AsyncDAG with distinct arguments under scripted " \
+                        "completion orders, and a heartbeat coroutine that must advance while an async-thread node runs"
+    return coverage, failures, None
+
+
+reg("C17", ["TM.C17c_partial", "TM.C17c_mixed_witness", "VM.C01_core", "TM.next_sound"], run_A,
+    ASSUME_V + ["the event loop's own fairness is trusted (asyncio)", "both flavours run the same coroutine async_execute (DAG drives it with asyncio.run): flavour equality is definitional in the model, the content is in the tie"])
